@@ -213,6 +213,54 @@ def run_c11(tier, seed, verdict, cov):
     cov['tree_nodes_evaluated'] = total_nodes
     cov['distinct_nontrivial'] = len({(json.dumps(c['fen']), tuple(c['hist']), c['depth']) for c in cases})
     cov['samples'] = samples
+    # node-level contract: every child search of the real search returns a value that is sound for its window
+    # (exact inside, a true bound outside) with respect to LookVal / Quiesce of that node
+    step_cases = [c for c in cases if c['depth'] <= 3][:90 if tier == 'quick' else 2500]
+    schunks = [step_cases[i::parts] for i in range(parts)]
+
+    def steps(i):
+        cp = os.path.join(d, 'step-cases-%d.ndjson' % i)
+        write_cases(cp, schunks[i])
+        out = os.path.join(d, 'steps-%02d.ndjson' % i)
+        run_harness(['search-steps', '--cases', cp, '--out', out, '--cap', 8000 if tier == 'quick' else 40000], timeout=6000)
+        return out
+    with cf.ThreadPoolExecutor(max_workers=parts) as ex:
+        sfiles = [f for f in ex.map(steps, range(parts)) if os.path.getsize(f) > 0]
+    with cf.ThreadPoolExecutor(max_workers=parts) as ex:
+        sres = list(ex.map(lambda f: validate_search(f, 'STEP', big=True), sfiles))
+    child_searches = 0
+    for f, r in zip(sfiles, sres):
+        if r['status'] == 'error':
+            log(r.get('detail', '')[-3000:])
+            raise ToolError('SearchTrace (STEP) failed to run on %s' % f)
+        cov['states'] = cov.get('states', 0) + r.get('states', 0)
+        cov['transitions'] = cov.get('transitions', 0) + max(0, r.get('states', 0) - 1)
+        if r['status'] == 'accept':
+            cov['traces_validated_against_impl'] = cov.get('traces_validated_against_impl', 0) + 1
+            child_searches += r['nums'][1]
+        else:
+            hdr = None
+            ev = None
+            path = {}
+            with open(f) as fh:
+                for ln, line in enumerate(fh, 1):
+                    if '"ev":"tree"' in line[:20]:
+                        hdr = json.loads(line)
+                        path = {}
+                    elif '"ev":"down"' in line[:20]:
+                        e = json.loads(line)
+                        path = {k: v for k, v in path.items() if k < e['ply']}
+                        path[e['ply']] = e['mv']
+                    if ln == r['line']:
+                        ev = json.loads(line)
+                        break
+            line_moves = [path[k] for k in sorted(path) if k <= ev.get('ply', 0)]
+            sig = {'kind': 'node-contract', 'fen': hdr['fen'], 'hist': hdr['hist'], 'depth': hdr['depth'], 'line': line_moves, 'fails': r['fails']}
+            verdict.report(sig, {'how': 'a child search of the real search returned a value that is unsound for its window (SearchTrace.tla STEP)',
+                                 'event': ev}, trace_src=None)
+    cov['child_searches_judged'] = child_searches
+    if child_searches == 0 and not verdict.violations:
+        raise ToolError('vacuity: no child search was judged in STEP mode')
     # the assumption behind "any move order" in Search.tla: the ordering iterator yields every move exactly once
     op = os.path.join(d, 'order.ndjson')
     run_harness(['order-trace', '--seed', seed, '--n', 600 if tier == 'quick' else 20000, '--out', op, '--seeds', os.path.join(ROOT, 'seeds')], timeout=3000)
